@@ -37,6 +37,13 @@ thread_local! {
     /// Rolling hash of the hook sites hit during the current call: the path the library
     /// took. A function of the call alone on a tree where calls are pure.
     static CALLSIG: Cell<u64> = const { Cell::new(0) };
+    /// Set while harness callback code runs on this thread (hook or edge callback), so that
+    /// instrumented harness code does not re-enter the scheduler.
+    static IN_CB: Cell<bool> = const { Cell::new(false) };
+    static EDGES: Cell<u64> = const { Cell::new(0) };
+    static EDGES_TOTAL: Cell<u64> = const { Cell::new(0) };
+    static EDGE_OFFERS: Cell<u64> = const { Cell::new(0) };
+    static EDGE_RNG: Cell<u64> = const { Cell::new(0x9E37_79B9_7F4A_7C15) };
     static JUMP_AT: Cell<u64> = const { Cell::new(0) };
     static JUMP_MS: Cell<u64> = const { Cell::new(0) };
     static JUMPS_FIRED: Cell<u64> = const { Cell::new(0) };
@@ -53,6 +60,80 @@ pub fn take_jumps_fired() -> u64 {
     JUMPS_FIRED.with(|j| j.replace(0))
 }
 
+/// Edges beyond this count inside one call are not scheduling points any more.
+pub const EDGE_PREEMPT_LIMIT: u64 = 30_000;
+/// One edge in this many is offered to the scheduler (deterministic per-thread sampling).
+pub const EDGE_SAMPLE: u64 = 12;
+/// Pseudo site id of a basic-block edge.
+pub const SITE_EDGE: u32 = 79;
+
+static DENSE_BUILD: std::sync::atomic::AtomicBool = std::sync::atomic::AtomicBool::new(false);
+
+pub fn note_dense_build() {
+    DENSE_BUILD.store(true, Ordering::Relaxed);
+}
+
+/// Is this executable instrumented with basic-block edge callbacks?
+pub fn dense_build() -> bool {
+    DENSE_BUILD.load(Ordering::Relaxed)
+}
+
+/// Returns true if a callback is already running on this thread (then: do nothing).
+#[inline]
+pub fn enter_cb() -> bool {
+    IN_CB.try_with(|c| c.replace(true)).unwrap_or(true)
+}
+
+#[inline]
+pub fn leave_cb() {
+    let _ = IN_CB.try_with(|c| c.set(false));
+}
+
+#[inline]
+pub fn in_call_fast() -> bool {
+    ACTIVE.try_with(|a| a.get()).unwrap_or(false)
+}
+
+/// A basic-block edge inside a guarded library call (dense build only).
+pub fn on_edge() {
+    let e = EDGES.with(|c| {
+        let v = c.get() + 1;
+        c.set(v);
+        v
+    });
+    EDGES_TOTAL.with(|c| c.set(c.get() + 1));
+    if e > EDGE_PREEMPT_LIMIT {
+        return;
+    }
+    // deterministic sampling: a per-thread generator that advances once per edge
+    let pick = EDGE_RNG.with(|r| {
+        let mut x = r.get();
+        x ^= x << 13;
+        x ^= x >> 7;
+        x ^= x << 17;
+        r.set(x);
+        x % EDGE_SAMPLE == 0
+    });
+    if !pick {
+        return;
+    }
+    if (MASK.with(|m| m.get()) >> SITE_EDGE) & 1 == 0 {
+        return;
+    }
+    let sim = SIM.with(|s| s.borrow().clone());
+    if let Some(sim) = sim {
+        EDGE_OFFERS.with(|c| c.set(c.get() + 1));
+        sim.site(SITE_EDGE, true);
+    }
+}
+
+pub fn take_edge_counts() -> (u64, u64) {
+    (
+        EDGES_TOTAL.with(|c| c.replace(0)),
+        EDGE_OFFERS.with(|c| c.replace(0)),
+    )
+}
+
 /// Path signature of the most recent guarded call on this thread.
 pub fn last_sig() -> u64 {
     CALLSIG.with(|c| c.get())
@@ -64,6 +145,12 @@ pub fn install() {
 
 /// Attach the calling OS thread to a simulated thread (or detach with `None`).
 pub fn attach(sim: Option<Arc<SimThread>>, mask: u128) {
+    // per-thread edge sampler: a function of (run, thread) only
+    let seed = sim
+        .as_ref()
+        .map(|s| crate::rng::mix(s.edge_seed, s.idx as u64 + 1))
+        .unwrap_or(0x9E37_79B9_7F4A_7C15);
+    EDGE_RNG.with(|r| r.set(seed | 1));
     MASK.with(|m| m.set(mask));
     SIM.with(|s| *s.borrow_mut() = sim);
     PROBES.with(|p| *p.borrow_mut() = [0; NSITES]);
@@ -86,6 +173,7 @@ pub fn did_cold_init() -> bool {
 
 pub fn begin_call(crash_at: u64) {
     STEPS.with(|s| s.set(0));
+    EDGES.with(|e| e.set(0));
     CALLSIG.with(|c| c.set(0xcbf2_9ce4_8422_2325));
     CRASH_AT.with(|c| c.set(crash_at));
     ACTIVE.with(|a| a.set(true));
@@ -104,6 +192,14 @@ fn on_step(site_id: u32) {
     if !ACTIVE.with(|a| a.get()) {
         return;
     }
+    if enter_cb() {
+        return;
+    }
+    on_step_inner(site_id);
+    leave_cb();
+}
+
+fn on_step_inner(site_id: u32) {
     let idx = (site_id as usize).min(NSITES - 1);
     PROBES.with(|p| p.borrow_mut()[idx] += 1);
     if site_id == site::BLOCK_TABLE_INIT {
@@ -121,6 +217,7 @@ fn on_step(site_id: u32) {
     });
     if s > STEP_BUDGET {
         ACTIVE.with(|a| a.set(false));
+        leave_cb();
         std::panic::resume_unwind(Box::new(SimUnwind::Diverged));
     }
     if s == JUMP_AT.with(|j| j.get()) {
@@ -130,6 +227,7 @@ fn on_step(site_id: u32) {
     }
     if s == CRASH_AT.with(|c| c.get()) {
         ACTIVE.with(|a| a.set(false));
+        leave_cb();
         std::panic::resume_unwind(Box::new(SimUnwind::Crash));
     }
     // scheduler: only the first PREEMPT_STEPS steps of a call are preemptible. Beyond that
